@@ -458,3 +458,160 @@ Definition admits (t : topology) (o : grow_option) (res : result) : bool :=
             end) (all_orders (length (r_nodes mainRack)))
         end) (all_orders (length (d_racks mainDc)))
     end) (all_orders (length (t_dcs t))).
+
+(* ====================================================================================
+   VolumeGrowth.grow / findAndGrow (volume_growth.go) — the allocation half.
+   AllocateVolume is an RPC to the volume server; its answer is an oracle [fl]:
+   the i-th call of one grow fails iff the i-th element of [fl] is true (absent = ok).
+   ==================================================================================== *)
+
+(* servers allocated so far (AddOrUpdateVolume + RegisterVolumeLayout done), err <> nil:
+   grow returns at the first failed AllocateVolume and undoes nothing *)
+Fixpoint grow (fl : list bool) (servers : list server) : list server * bool :=
+  match servers with
+  | [] => ([], false)
+  | s :: rest =>
+      if hd false fl then ([], true)
+      else let '(a, e) := grow (tl fl) rest in (s :: a, e)
+  end.
+
+(* the AllocateVolume RPCs sent, in order (the refused one included) *)
+Fixpoint grow_calls (fl : list bool) (servers : list server) : list server :=
+  match servers with
+  | [] => []
+  | s :: rest => s :: (if hd false fl then [] else grow_calls (tl fl) rest)
+  end.
+
+(* Disk.doAddOrUpdateVolume of a new, writable, local volume: delta volumeCount = 1,
+   activeVolumeCount = 1, applied by UpAdjustDiskUsageDelta at the data node and every
+   ancestor (getOrCreateDisk creates an absent disk type) *)
+Definition add_one (c : counts) : counts :=
+  mkCounts (volumeCount c + 1) (remoteVolumeCount c) (activeVolumeCount c + 1) (ecShardCount c) (maxVolumeCount c).
+
+Fixpoint uadd (u : usages) (t : string) : usages :=
+  match u with
+  | [] => [(t, add_one zero_counts)]
+  | (k, c) :: u' => if String.eqb k t then (k, add_one c) :: u' else (k, c) :: uadd u' t
+  end.
+
+Definition add_volume_node (disk : string) (s : server) (n : dnode) : dnode :=
+  if String.eqb (n_id n) (s_node s) then {| n_id := n_id n; n_usage := uadd (n_usage n) disk |} else n.
+Definition add_volume_rack (disk : string) (s : server) (rk : rack) : rack :=
+  if String.eqb (r_id rk) (s_rack s)
+  then {| r_id := r_id rk; r_usage := uadd (r_usage rk) disk; r_nodes := map (add_volume_node disk s) (r_nodes rk) |}
+  else rk.
+Definition add_volume_dc (disk : string) (s : server) (dc : dcenter) : dcenter :=
+  if String.eqb (d_id dc) (s_dc s)
+  then {| d_id := d_id dc; d_usage := uadd (d_usage dc) disk; d_racks := map (add_volume_rack disk s) (d_racks dc) |}
+  else dc.
+(* [s] names a data node of the tree (always so for a server returned by the search) *)
+Definition add_volume (disk : string) (t : topology) (s : server) : topology :=
+  {| t_usage := uadd (t_usage t) disk; t_dcs := map (add_volume_dc disk s) (t_dcs t) |}.
+
+Record grow_result := {
+  gr_found : list server;      (* servers chosen by findEmptySlotsForOneVolume *)
+  gr_err : bool;               (* findAndGrow's error *)
+  gr_allocated : list server;  (* servers that hold and have registered the new volume *)
+  gr_calls : list server;      (* AllocateVolume RPCs sent *)
+  gr_topo : topology           (* counters afterwards *) }.
+
+(* findAndGrow (topo.NextVolumeId, a raft command, is taken to succeed) *)
+Definition find_and_grow (orc : oracle) (fl : list bool) (t : topology) (o : grow_option) : grow_result :=
+  match find_empty_slots orc t o with
+  | (ss, true) => {| gr_found := ss; gr_err := true; gr_allocated := []; gr_calls := []; gr_topo := t |}
+  | (ss, false) =>
+      let '(a, e) := grow fl ss in
+      {| gr_found := ss; gr_err := e; gr_allocated := a; gr_calls := grow_calls fl ss;
+         gr_topo := fold_left (add_volume (go_disk o)) a t |}
+  end.
+
+(* index of the first refused call *)
+Fixpoint first_fail (fl : list bool) : option nat :=
+  match fl with
+  | [] => None
+  | true :: _ => Some O
+  | false :: fl' => option_map S (first_fail fl')
+  end.
+
+(* known finding 0 (partial grow): the first refused AllocateVolume is neither the first
+   call nor beyond the 1+x+y+z calls of this grow — per grow call *)
+Definition copy_count (o : grow_option) : nat := 1 + rp_dc o + rp_rack o + rp_same o.
+Definition trigger_partial_grow (fl : list bool) (o : grow_option) : bool :=
+  match first_fail fl with
+  | Some i => Nat.ltb 0 i && Nat.ltb i (copy_count o)
+  | None => false
+  end.
+
+(* counters of the data node named by a server path *)
+Definition node_counts (t : topology) (disk : string) (s : server) : option counts :=
+  match find (fun dc => String.eqb (d_id dc) (s_dc s)) (t_dcs t) with
+  | None => None
+  | Some dc =>
+    match find (fun rk => String.eqb (r_id rk) (s_rack s)) (d_racks dc) with
+    | None => None
+    | Some rk =>
+      match find (fun n => String.eqb (n_id n) (s_node s)) (r_nodes rk) with
+      | None => None
+      | Some n => Some (uget (n_usage n) disk)
+      end
+    end
+  end.
+
+(* ---------- comparison of two counter snapshots (absent disk type = zero counts) ---------- *)
+Definition counts_eqb (a b : counts) : bool :=
+  (volumeCount a =? volumeCount b) && (remoteVolumeCount a =? remoteVolumeCount b) &&
+  (activeVolumeCount a =? activeVolumeCount b) && (ecShardCount a =? ecShardCount b) &&
+  (maxVolumeCount a =? maxVolumeCount b).
+Definition usages_eqb (a b : usages) : bool :=
+  forallb (fun k => counts_eqb (uget a k) (uget b k)) (map fst a ++ map fst b).
+Definition node_eqb (a b : dnode) : bool := String.eqb (n_id a) (n_id b) && usages_eqb (n_usage a) (n_usage b).
+Definition rack_eqb (a b : rack) : bool :=
+  String.eqb (r_id a) (r_id b) && usages_eqb (r_usage a) (r_usage b) && list_eqb node_eqb (r_nodes a) (r_nodes b).
+Definition dc_eqb (a b : dcenter) : bool :=
+  String.eqb (d_id a) (d_id b) && usages_eqb (d_usage a) (d_usage b) && list_eqb rack_eqb (d_racks a) (d_racks b).
+Definition topo_eqb (a b : topology) : bool :=
+  usages_eqb (t_usage a) (t_usage b) && list_eqb dc_eqb (t_dcs a) (t_dcs b).
+
+(* ====================================================================================
+   Completeness: a decidable condition under which the search succeeds for EVERY oracle.
+   ==================================================================================== *)
+
+(* PickNodesByWeight fails iff (independent of map order and random numbers) *)
+Definition pick_fails {A} (avail : A -> Z) (number : nat) (filt : A -> bool) (children : list A) : bool :=
+  let cands := filter (fun c => 0 <? avail c) children in
+  Nat.ltb (length cands) number || negb (existsb filt cands).
+
+Definition sum_pos {A} (avail : A -> Z) (l : list A) : Z :=
+  fold_right (fun c s => Z.max 0 (avail c) + s) 0 l.
+
+(* a level's own counter does not promise more than its children hold: then ReserveOneVolume
+   cannot fail (the EC-shard term and per-level overwrites can break this) *)
+Definition counters_sound (t : topology) (o : grow_option) : bool :=
+  forallb (fun dc => (avail_dc o dc <=? sum_pos (avail_rack o) (d_racks dc)) &&
+     forallb (fun rk => avail_rack o rk <=? sum_pos (avail_node o) (r_nodes rk)) (d_racks dc)) (t_dcs t).
+
+(* every data center / rack the weighted pick can choose as the main one leads on *)
+Definition all_paths_ok (t : topology) (o : grow_option) : bool :=
+  counters_sound t o &&
+  negb (pick_fails (avail_dc o) (rp_dc o + 1) (dc_filter o) (t_dcs t)) &&
+  forallb (fun dc =>
+    if (0 <? avail_dc o dc) && dc_filter o dc then
+      negb (pick_fails (avail_rack o) (rp_rack o + 1) (rack_filter o) (d_racks dc)) &&
+      forallb (fun rk =>
+        if (0 <? avail_rack o rk) && rack_filter o rk then
+          negb (pick_fails (avail_node o) (rp_same o + 1) (node_filter o) (r_nodes rk))
+        else true) (d_racks dc)
+    else true) (t_dcs t).
+
+(* every rand.Int63n(n) of findEmptySlotsForOneVolume has n > 0 (Go panics otherwise):
+   replays the three picks and tests the racks / data centers handed to the reserve loops *)
+Definition int63n_args_positive (orc : oracle) (t : topology) (o : grow_option) : bool :=
+  match pick_nodes (avail_dc o) (o_dc_order orc) (o_dc_rs orc) (rp_dc o + 1) (dc_filter o) (t_dcs t) with
+  | None => true
+  | Some (mainDc, otherDcs) =>
+    forallb (fun dc => 0 <? avail_dc o dc) otherDcs &&
+    match pick_nodes (avail_rack o) (o_rack_order orc) (o_rack_rs orc) (rp_rack o + 1) (rack_filter o) (d_racks mainDc) with
+    | None => true
+    | Some (mainRack, otherRacks) => forallb (fun rk => 0 <? avail_rack o rk) otherRacks
+    end
+  end.
